@@ -284,6 +284,22 @@ Ltac loopf H :=
   destruct H' as (?Hdup & ?Hfra & ?Hfrf & ?Hfrl & ?Hfrm & ?Hcw & ?Hss & ?Hca & ?Hwn & ?Hun &
                   ?Hnl & ?Hsc & ?Hts & ?Hrto & ?Hmp & ?Hws & ?Hrs).
 
+Lemma loopfieldsT_fields s s' x : loopfields (s <| tstate := x |>) s' ->
+  dupAck s' = dupAck s /\ frActive s' = frActive s /\ frFirst s' = frFirst s /\ frLast s' = frLast s /\
+  frMaxCwnd s' = frMaxCwnd s /\ cwnd s' = cwnd s /\ ssthresh s' = ssthresh s /\ caCount s' = caCount s /\
+  sndWnd s' = sndWnd s /\ sndUna s' = sndUna s /\
+  sndNxtList s' = sndNxtList s /\ sclosed s' = sclosed s /\
+  rto s' = rto s /\ maxPayload s' = maxPayload s /\ sndWndScale s' = sndWndScale s /\
+  rttSeq s' = rttSeq s.
+Proof.
+  intros H. destruct s, s'. unfold loopfields, core in H. cbn in H. inversion H. subst. cbn. repeat split.
+Qed.
+Ltac loopfT H :=
+  let H' := fresh in
+  pose proof (loopfieldsT_fields _ _ _ H) as H';
+  destruct H' as (?Hdup & ?Hfra & ?Hfrf & ?Hfrl & ?Hfrm & ?Hcw & ?Hss & ?Hca & ?Hwn & ?Hun &
+                  ?Hnl & ?Hsc & ?Hrto & ?Hmp & ?Hws & ?Hrs).
+
 (* one transmission of the loop: install the new sender state, emit, advance sndNxt *)
 Definition xmit (t : tcp) (s' : sndr) (d : list Z) (fl sq segEnd : Z) : tcp :=
   let t2 := sendSegment (t <| SN := s' |>) d fl sq in
